@@ -79,6 +79,43 @@ Theorem C18_no_dispatch_after_join : forall s ok, jp s <> JIdle -> step s (EDisp
 Proof. exact no_dispatch_after_join. Qed.
 Print Assumptions C18_no_dispatch_after_join.
 
+(* a closure's panic — inside its future, or synchronously at its first poll
+   before it has returned one: both are the label EFinish _ _ false — stays in
+   its task: no worker dies by it, channel, sender, join state and every other
+   task are untouched, and the set of panicked workers (what join re-raises,
+   C18_join_after_exit) does not change *)
+Theorem C18_task_panic_confined : forall s w t ok s',
+  step s (EFinish w t ok) = Some s' ->
+  q s' = q s /\ sender s' = sender s /\ jp s' = jp s /\
+  (forall u, u <> t -> nth_error (ts s') u = nth_error (ts s) u) /\
+  (forall v p, nth_error (ws s') v = Some p -> is_dead p = true -> nth_error (ws s) v = Some p) /\
+  existsb is_panicked (ws s') = existsb is_panicked (ws s).
+Proof. exact task_panic_confined. Qed.
+Print Assumptions C18_task_panic_confined.
+
+(* none stranded: a task spawned on a runtime that still exists can be started,
+   however many others were spawned in the same poll of the worker's loop and
+   without any further event from outside (no later dispatch, wake-up or join) *)
+Theorem C18_spawned_task_startable : forall c n es s t x w,
+  steps (init c n) es = Some s -> nth_error (ts s) t = Some x -> ph x = TSpawned w ->
+  exists s', step s (EStart w t) = Some s' /\
+             exists x', nth_error (ts s') t = Some x' /\ ph x' = TRunning w /\ starts x' = 1.
+Proof. exact spawned_task_startable. Qed.
+Print Assumptions C18_spawned_task_startable.
+
+(* one worker: a closure panics at its first poll; the closures accepted behind
+   it on the same worker still run, later dispatches are accepted, join returns Ok *)
+Example C18_sync_panic_example :
+  exists s, steps (init true 1)
+    [EBoot 0 true; EDispatch true; EDispatch true; ERecv 0 0; ESpawn 0 0; ERecv 0 1; ESpawn 0 1;
+     EStart 0 0; EFinish 0 0 false; EStart 0 1; EFinish 0 1 true; EDispatch true; ERecv 0 2;
+     ESpawn 0 2; EStart 0 2; EFinish 0 2 true; EJoinBegin; ELeave 0; EExit 0; EJoinReturn false]
+    = Some s /\
+    map rc (ts s) = [RCanceled; RResult; RResult] /\ jp s = JReturned false /\
+    ws s = [WDead false].
+Proof. eexists. split; [vm_compute; reflexivity|]. vm_compute. repeat split. Qed.
+Print Assumptions C18_sync_panic_example.
+
 (* non-vacuity: concurrent mode, two workers, three closures; worker 0 takes
    two of them; one finishes, one is still pending when join is called and is
    cancelled with its runtime; the third ran on worker 1 and panicked *)
